@@ -6,11 +6,25 @@ import YaegiVerif.Proofs.C04Append
 namespace YaegiVerif.Share
 open YaegiVerif.Expected.C04 (share)
 
-/-- `x, ok := m[k]` on first execution -/
-theorem lookup2Y_spec (st : St) (x ok : Name) (m : LExp) (k : IExp) (zero : Val) (hne : x ≠ ok) :
-    lookup2Y share false st true x ok m k zero = Spec.lookup2 st true x ok m k zero := by
+/-- the destination of a comma-ok form: a new cell stored through = the specification's new variable -/
+theorem setOrFresh_spec (st : St) (b : Bool) (x : Name) (z v : Val) :
+    setOrFresh st b x z v = Spec.setOrDeclare st b x v := by
+  unfold setOrFresh Spec.setOrDeclare
+  cases b with
+  | false => rfl
+  | true =>
+    simp [St.fresh, St.alloc, St.bind, St.var, lookupEnv, St.write, writeLoc, Val.put, Spec.declare, bind, Except.bind]
+
+/-- with today's facts a comma-ok `:=` gives every variable that is not merely redeclared a new cell, at every execution -/
+theorem lookup2Fresh_share (reexec isDef rd : Bool) : lookup2Fresh share reexec isDef rd = (isDef && !rd) := by
+  cases rd <;> simp [lookup2Fresh, share_lookup2DefineFresh, share_lookup2RedeclInPlace]
+
+/-- `x, ok = m[k]` and `x, ok := m[k]`, on every execution (the zero value is stored for a missing key since commit
+    6b8d7ae of the repository; the declared variables are new at each execution since 5a404d3) -/
+theorem lookup2Y_spec (st : St) (reexec isDef : Bool) (x ok : Name) (m : LExp) (k : IExp) (zero : Val) (rdx rdok : Bool) :
+    lookup2Y share reexec st isDef x ok m k zero rdx rdok = Spec.lookup2 st isDef x ok m k zero rdx rdok := by
   unfold lookup2Y Spec.lookup2
-  simp only [bind, Except.bind, share_lookup2OnlyIfValid, if_true, Bool.not_false, Bool.and_self, Bool.false_eq_true, if_false]
+  simp only [bind, Except.bind, share_lookup2OnlyIfValid, Bool.false_eq_true, if_false, lookup2Fresh_share, setOrFresh_spec]
   cases resolve st m with
   | error e => rfl
   | ok loc =>
@@ -25,98 +39,37 @@ theorem lookup2Y_spec (st : St) (x ok : Name) (m : LExp) (k : IExp) (zero : Val)
         simp only
         cases mapLookup st mv key with
         | error e => rfl
-        | ok r =>
-          have hne' : ¬ ok = x := fun e => hne e.symm
-          cases r with
-          | none =>
-            simp [St.fresh, St.alloc, St.bind, St.var, lookupEnv, hne, hne', St.write, writeLoc, Val.put, Spec.declare, boolVal]
-          | some v =>
-            simp [St.fresh, St.alloc, St.bind, St.var, lookupEnv, hne, hne', St.write, writeLoc, Val.put, Spec.declare, boolVal]
+        | ok r => cases r <;> rfl
 
-/-- `x, ok = m[k]` (the zero value is stored for a missing key since commit 6b8d7ae of the repository) -/
-theorem lookup2Y_assign_spec (st : St) (reexec : Bool) (x ok : Name) (m : LExp) (k : IExp) (zero : Val) :
-    lookup2Y share reexec st false x ok m k zero = Spec.lookup2 st false x ok m k zero := by
-  unfold lookup2Y Spec.lookup2
-  simp only [bind, Except.bind, share_lookup2OnlyIfValid, Bool.false_and, Bool.false_eq_true, if_false]
-  cases resolve st m with
-  | error e => rfl
-  | ok loc =>
-    simp only
-    cases st.read loc with
-    | error e => rfl
-    | ok mv =>
-      simp only
-      cases keyVal st k with
-      | error e => rfl
-      | ok key =>
-        simp only
-        cases mapLookup st mv key with
-        | error e => rfl
-        | ok r =>
-          simp only
-          cases st.var x with
-          | error e => rfl
-          | ok lx =>
-            simp only
-            cases st.var ok with
-            | error e => rfl
-            | ok lok => cases r <;> rfl
-
-/-- one statement: in the domain the mechanism computes the specification's state -/
-theorem sopY_spec (G : Growth) (st : St) (o : SOp) (inBody reexec : Bool) (hre : reexec = true → inBody = true)
-    (h : sopClass inBody o = none) : sopY share G reexec st o = Spec.sop G st o := by
+/-- one statement: the mechanism computes the specification's state — every statement of the language, first or
+    repeated execution -/
+theorem sopY_spec (G : Growth) (st : St) (o : SOp) (reexec : Bool) : sopY share G reexec st o = Spec.sop G st o := by
   cases o with
   | assign l r => exact assignY_spec st l r
   | opassign l k => rfl
-  | define x r => exact defineY_spec st x r inBody reexec hre h
+  | define x r => exact defineY_spec st x r reexec
   | multi ls rs => exact multiY_spec st ls rs
-  | multidef xs rd zs rs => exact multidefY_spec st xs rd zs rs inBody reexec h
-  | append isDef l s args zero esz noscan =>
-    have ha : aliasArgs args = false := by
-      cases hc : aliasArgs args with
-      | false => rfl
-      | true => simp [sopClass, hc] at h
-    exact appendY_spec G st isDef l s args zero esz noscan ha
+  | multidef xs rd zs rs => exact multidefY_spec st xs rd zs rs reexec
+  | append isDef l s args zero esz noscan => exact appendY_spec G st isDef l s args zero esz noscan
   | appendSlice isDef l s t zero esz noscan => exact appendSliceY_spec G st isDef l s t zero esz noscan
   | copy d s => exact copyY_spec st d s
   | mapSet m k r => exact mapSetY_spec st m k r
   | mapDel m k => rfl
-  | lookup2 isDef x ok m k zero =>
-    cases isDef with
-    | false => exact lookup2Y_assign_spec st reexec x ok m k zero
-    | true =>
-      have hb : inBody = false := by
-        cases hc : inBody with
-        | false => rfl
-        | true => simp [sopClass, hc] at h
-      have hx : x ≠ ok := by
-        intro e
-        simp [sopClass, hb, e] at h
-      have hr : reexec = false := by
-        cases hc : reexec with
-        | false => rfl
-        | true => rw [hre hc] at hb; cases hb
-      subst hr
-      exact lookup2Y_spec st x ok m k zero hx
+  | lookup2 isDef x ok m k zero rdx rdok => exact lookup2Y_spec st reexec isDef x ok m k zero rdx rdok
   | callMut isDef l sel k arg => exact callMutY_spec st isDef l sel k arg
   | «show» xs => rfl
 
-theorem sopsY_spec (G : Growth) (inBody reexec : Bool) (hre : reexec = true → inBody = true) :
-    ∀ (os : List SOp) (st : St), sopsClass inBody os = none → sopsY share G reexec st os = Spec.sops G st os := by
+theorem sopsY_spec (G : Growth) (reexec : Bool) :
+    ∀ (os : List SOp) (st : St), sopsY share G reexec st os = Spec.sops G st os := by
   intro os
   induction os with
-  | nil => intro st _; rfl
+  | nil => intro st; rfl
   | cons o os ih =>
-    intro st h
-    have ho : sopClass inBody o = none := by
-      cases hc : sopClass inBody o with
-      | none => rfl
-      | some c => simp [sopsClass, hc] at h
-    have hos : sopsClass inBody os = none := by simpa [sopsClass, ho] using h
-    simp only [sopsY, Spec.sops, sopY_spec G st o inBody reexec hre ho]
+    intro st
+    simp only [sopsY, Spec.sops, sopY_spec G st o reexec]
     cases Spec.sop G st o with
     | error e => rfl
-    | ok st1 => exact ih st1 hos
+    | ok st1 => exact ih st1
 
 theorem rangeLoop_congr (runA runB : Nat → St → List SOp → St × Option Err) (src : RangeSrc) (i v : Name) (body : List SOp)
     (h : ∀ k st, runA k st body = runB k st body) :
@@ -149,7 +102,7 @@ theorem rangeSrcY_spec (st : St) (l : LExp) : rangeSrcY share st l = Spec.rangeS
     | ok v => cases v <;> rfl
 
 /-- `for i, v := range l { body }` -/
-theorem rangeY_spec (G : Growth) (st : St) (l : LExp) (i v : Name) (body : List SOp) (h : sopsClass true body = none) :
+theorem rangeY_spec (G : Growth) (st : St) (l : LExp) (i v : Name) (body : List SOp) :
     rangeY share G st l i v body = Spec.range G st l i v body := by
   unfold rangeY Spec.range
   rw [rangeSrcY_spec]
@@ -157,7 +110,7 @@ theorem rangeY_spec (G : Growth) (st : St) (l : LExp) (i v : Name) (body : List 
   | error e => rfl
   | ok src =>
     simp only
-    exact rangeLoop_congr _ _ src i v body (fun k st => sopsY_spec G true (k != 0) (fun _ => rfl) body st h) _ 0 st
+    exact rangeLoop_congr _ _ src i v body (fun k st => sopsY_spec G (k != 0) body st) _ 0 st
 
 theorem captureCells_spec (x : Name) : ∀ (elems : List Val) (st : St) (acc : List Loc),
     captureCells share st x elems acc = .ok (Spec.captureVars st x elems acc) := by
@@ -187,30 +140,24 @@ theorem captureY_spec (st : St) (l : LExp) (x : Name) (sel : LExp) (k : Int) (ca
       | error e => rfl
       | ok es => simp [captureCells_spec]
 
-theorem opY_spec (G : Growth) (st : St) (o : Op) (h : opClass o = none) : opY share G st o = Spec.op G st o := by
+theorem opY_spec (G : Growth) (st : St) (o : Op) : opY share G st o = Spec.op G st o := by
   cases o with
-  | s o => simp only [opY, Spec.op, sopY_spec G st o false false (fun e => by cases e) h]
-  | range l i v body => exact rangeY_spec G st l i v body h
+  | s o => simp only [opY, Spec.op, sopY_spec G st o false]
+  | range l i v body => exact rangeY_spec G st l i v body
   | capture l x sel k calls => simp only [opY, Spec.op, captureY_spec]
 
 /-- whole operation sequences -/
-theorem runY_spec (G : Growth) : ∀ (ops : List Op) (st : St), classOf ops = none →
-    runY share G st ops = Spec.runGo G st ops := by
+theorem runY_spec (G : Growth) : ∀ (ops : List Op) (st : St), runY share G st ops = Spec.runGo G st ops := by
   intro ops
   induction ops with
-  | nil => intro st _; rfl
+  | nil => intro st; rfl
   | cons o os ih =>
-    intro st h
-    have ho : opClass o = none := by
-      cases hc : opClass o with
-      | none => rfl
-      | some c => simp [classOf, hc] at h
-    have hos : classOf os = none := by simpa [classOf, ho] using h
-    simp only [runY, Spec.runGo, runFrom, opY_spec G st o ho]
+    intro st
+    simp only [runY, Spec.runGo, runFrom, opY_spec G st o]
     cases hr : Spec.op G st o with
     | mk st1 r =>
       cases r with
-      | none => exact ih st1 hos
+      | none => exact ih st1
       | some e => rfl
 
 end YaegiVerif.Share
